@@ -5,10 +5,16 @@ translate:   translator/extract_effects.py → lean/Midgard/Generated/ParserEffe
 prove:       lean/Midgard/Props/C16.lean (non-interference over all histories; independence lemma per mechanism;
              obligations over the regenerated tables)
 oracle:      the property stated directly on the real code: every parse at any point of a history of
-             {construct, parse, mutate result} over several live parser objects gives the digests a parse of the same
-             file gives in a *fresh interpreter* (subprocess); file bytes hashed before/after; every listed plug-in
-             name is loaded and used the way the library advertises.
-correspond:  (a) the static effect table against the cells that really change at run time (snapshots of every
+             {construct, parse (whole, in its three public steps, or with another object's parse nested inside it),
+             mutate result, overwrite the file} over several live parser objects and argument sets gives the digests a
+             parse of the same file content with the same arguments gives in a *fresh process* that never loaded a parser
+             plug-in nor constructed a parser (forked from a server that holds third-party packages and the imported
+             package midgard.parsers; cross-checked against interpreters started from scratch);
+             histories are run in this process (accumulating) and in fresh processes of their own (so that a
+             "the first file decides" memo is seen); file bytes hashed before/after; every listed plug-in name is loaded
+             and used the way the library advertises.
+correspond:  (a) the static effect table (with the level of every cell, closure cells, escape sites and the
+             per-instance cells of the parser classes) against the cells that really change at run time (snapshots of every
              mutable container hanging off a loaded midgard module/class/function), each changed cell must be a
              covered effect of the Lean table; (b) the RINEX header cache model against the real decorator on
              generated headers with the real content of the function-level list as `pre`; (c) the registry model
@@ -23,10 +29,12 @@ import io
 import itertools
 import json
 import os
+import queue
 import shutil
 import subprocess
 import sys
 import tempfile
+import threading
 import time
 import warnings
 from pathlib import Path
@@ -46,13 +54,15 @@ EXTRA_EXAMPLES = {
     "gnssrefl_txt": ["gnssrefl_gnssir_txt", "gnssrefl_subdaily_txt"],
     "rinex2_nav": ["rinex2_nav.19n", "rinex2_gps_nav"],
     "rinex212_nav": ["rinex212_GN.rnx"],
-    "rinex_nav": ["rinex2_nav.19n"],
+    "rinex_nav": ["rinex2_nav.19n", "rinex3_nav", "rinex212_GN.rnx"],
     "sp3": ["sp3c", "sp3d"],
     "sinex_site": ["sinex_site", "sinex_site_igs", "gnss_sinex_igs"],
     "bernese_sta": ["bernese_sta"],
     "bernese_sta_v52": ["bernese_sta_v52"],
     "wip_rinex": ["rinex3_obs", "rinex2_obs"],
-    "wip_rinex_obs": ["rinex3_obs"],
+    "wip_rinex_obs": ["rinex3_obs", "rinex2_obs"],
+    "wip_rinex_nav": ["rinex3_nav", "rinex2_nav.19n"],
+    "wip_rinex_clk": ["rinex3_clk"],
     "wip_rinex3_obs": ["rinex3_obs"],
     "wip_rinex3_obs_header": ["rinex3_obs"],
     "wip_rinex2_obs_header": ["rinex2_obs"],
@@ -69,16 +79,12 @@ def sha(path: str) -> str:
         return "missing"
 
 
-@contextlib.contextmanager
-def quiet():
-    with warnings.catch_warnings():
-        warnings.simplefilter("ignore")
-        with contextlib.redirect_stdout(io.StringIO()), contextlib.redirect_stderr(io.StringIO()):
-            yield
+quiet = c16_canon.quiet
+Key = Tuple[str, str, str]  # (parser name, path, canonical JSON of the keyword arguments or '')
 
 
 # -------------------------------------------------------------------------------------------------
-# fresh interpreter
+# fresh interpreters / fresh processes
 
 
 def worker(mode: str, job: Dict[str, Any], timeout: int = 300) -> Dict[str, Any]:
@@ -91,29 +97,65 @@ def worker(mode: str, job: Dict[str, Any], timeout: int = 300) -> Dict[str, Any]
     raise common.ToolFailure(f"fresh-interpreter worker gave no result for {job}: {p.stderr[-600:]}")
 
 
-def fresh_many(jobs: List[Tuple[str, str]], workers: int = 12) -> Dict[Tuple[str, str], Dict[str, str]]:
-    out: Dict[Tuple[str, str], Dict[str, str]] = {}
-    with cf.ThreadPoolExecutor(max_workers=workers) as ex:
-        futs = {ex.submit(worker, "parse", {"parser": n, "path": f}): (n, f) for n, f in jobs}
-        for fu in cf.as_completed(futs):
-            out[futs[fu]] = fu.result()
-    return out
+def true_fresh(key: Key) -> Dict[str, str]:
+    return worker("parse", {"parser": key[0], "path": key[1], "kwargs": key[2]})
 
 
-# -------------------------------------------------------------------------------------------------
-# the library's front door, split into its two steps (parsers.parse_file = construct, then parse)
+class ForkPool:
+    """servers that have imported numpy/pandas/scipy/pint and the package midgard.parsers (no plug-in module, no parser
+    ever constructed); every job runs in a forked child that exits afterwards (harness/c16_worker.py, mode forkserver).
+    The result of such a child is cross-checked on every run against interpreters started from scratch."""
 
+    def __init__(self, n: int = 12):
+        env = dict(os.environ, PYTHONWARNINGS="ignore", PYTHONDONTWRITEBYTECODE="1")
+        self.procs = [subprocess.Popen([sys.executable, WORKER, REPO, "forkserver"], stdin=subprocess.PIPE, stdout=subprocess.PIPE,
+                                       stderr=subprocess.DEVNULL, text=True, env=env) for _ in range(n)]
+        self.free: "queue.Queue" = queue.Queue()
+        self.ready = [False] * n
+        for i in range(n):
+            self.free.put(i)
+        self.ex = cf.ThreadPoolExecutor(max_workers=n)
+        self.jobs = 0
 
-def construct(name: str, path: str):
-    from midgard.dev import plugins
+    def _one(self, job: Dict[str, Any]):
+        i = self.free.get()
+        try:
+            p = self.procs[i]
+            if not self.ready[i]:
+                line = p.stdout.readline()
+                if not line.startswith("@@READY@@"):
+                    raise common.ToolFailure(f"fork server did not start: {line[:200]!r}")
+                self.ready[i] = True
+            p.stdin.write(json.dumps(job) + "\n")
+            p.stdin.flush()
+            line = p.stdout.readline()
+            if not line.startswith("@@RESULT@@"):
+                raise common.ToolFailure(f"fork server gave no result for {str(job)[:300]}: {line[:200]!r}")
+            r = json.loads(line[len("@@RESULT@@"):])
+            if "failure" in r:
+                raise common.ToolFailure(f"fresh process failed for {str(job)[:300]}: {r['failure']}")
+            return r["result"]
+        finally:
+            self.free.put(i)
 
-    return plugins.call(package_name=PKG, plugin_name=name, file_path=path, encoding=None)
+    def submit(self, job: Dict[str, Any]) -> "cf.Future":
+        self.jobs += 1
+        return self.ex.submit(self._one, job)
 
+    def parse(self, key: Key) -> "cf.Future":
+        return self.submit({"kind": "parse", "parser": key[0], "path": key[1], "kwargs": key[2]})
 
-def do_parse(p):
-    if p.data_available:
-        p.parse()
-    return p
+    def history(self, events) -> "cf.Future":
+        return self.submit({"kind": "history", "events": events})
+
+    def close(self):
+        self.ex.shutdown(wait=True)
+        for p in self.procs:
+            try:
+                p.stdin.close()
+                p.wait(timeout=10)
+            except Exception:
+                p.kill()
 
 
 def diff_keys(a: Dict[str, str], b: Dict[str, str]) -> List[str]:
@@ -124,19 +166,26 @@ def diff_keys(a: Dict[str, str], b: Dict[str, str]) -> List[str]:
 # generated inputs
 
 
-def rinex3_header(lines_obs: List[Tuple[str, List[str]]], phase: List[str] = ()) -> str:
+def rinex3_header(lines_obs: List[Tuple[str, List[str]]], phase: List[str] = (), extra_after_obs: List[str] = (),
+                  end: bool = True, cut: Optional[int] = None) -> str:
     """a RINEX 3 observation header with the given SYS / # / OBS TYPES lines (system may be blank = continuation)"""
     out = ["     3.03           OBSERVATION DATA    M                   RINEX VERSION / TYPE"]
     for sys_, types in lines_obs:
         body = f"{sys_:1s}  {len(types):3d}" + "".join(f" {t:3s}" for t in types)
         out.append(f"{body:60s}SYS / # / OBS TYPES")
+    out += list(extra_after_obs)
     for ph in phase:
         out.append(f"{ph:60s}SYS / PHASE SHIFT")
-    out.append(f"{'':60s}END OF HEADER")
+    if cut is not None:
+        out = out[:cut]
+    elif end:
+        out.append(f"{'':60s}END OF HEADER")
     return "\n".join(out) + "\n"
 
 
 OBS_CODES = ["C1C", "L1C", "D1C", "S1C", "C2W", "L2W", "C5Q", "L5Q", "C1P", "L1P", "C2P", "L2P", "S2W", "C7Q"]
+HEADER_KINDS = ["plain", "starts-with-continuation", "raises-after-obs-lines", "phase-shift-starts-with-continuation",
+                "unknown-label-strict", "cut-short-in-continuation"]
 
 
 def gen_obs_lines(rng, wf: bool) -> List[Tuple[str, List[str]]]:
@@ -151,21 +200,96 @@ def gen_obs_lines(rng, wf: bool) -> List[Tuple[str, List[str]]]:
     return lines
 
 
-def make_generated(rng, tmp: Path, n_headers: int, n_trunc: int, examples: List[Tuple[str, str]]):
-    """returns [(parser, path, info)] of generated inputs; info carries the obs lines for header files"""
-    out = []
-    for i in range(n_headers):
-        wf = i % 3 != 0
-        lines = gen_obs_lines(rng, wf)
+def gen_header(rng, i: int) -> Tuple[str, str, Dict[str, Any]]:
+    """(text, kw, info) of the i-th generated header; the classes cycle so that every run has every class:
+    plain / starting with a continuation line (the two the header model is compared on), a header whose reading raises
+    after SYS / # / OBS TYPES lines were handled (malformed APPROX POSITION XYZ), one whose SYS / PHASE SHIFT block starts
+    with a continuation line (raises after the OBS TYPES lines), an unknown label read with strict=True (ParserError),
+    a header cut short inside a continuation block (no END OF HEADER)"""
+    kind = HEADER_KINDS[i % len(HEADER_KINDS)]
+    wf = kind != "starts-with-continuation"
+    lines = gen_obs_lines(rng, wf)
+    info: Dict[str, Any] = {"header_kind": kind}
+    kw = ""
+    if kind in ("plain", "starts-with-continuation"):
         phase = []
         if rng.random() < 0.6:
             if not wf and rng.random() < 0.5:
                 phase.append(f"{'':19s}G11 G12")
             phase.append("G L1C  0.00000  02 G01 G02")
             phase.append(f"{'':19s}G03")
+        text = rinex3_header(lines, phase)
+        info.update({"obs_lines": lines, "wf": wf})
+    elif kind == "raises-after-obs-lines":
+        bad = rng.choice(["  2691511.1850   XXXXXXXX.0000  5050000.0000", "  not a number    1.0   2.0", "  1.0 2.0"])
+        text = rinex3_header(lines, ["G L1C  0.00000  02 G01 G02"], [f"{bad:60s}APPROX POSITION XYZ"])
+    elif kind == "phase-shift-starts-with-continuation":
+        text = rinex3_header(lines, [f"{'':19s}G11 G12", "G L1C  0.00000  02 G01 G02"])
+    elif kind == "unknown-label-strict":
+        text = rinex3_header(lines, [], [f"{'this label is not a RINEX header':60s}NO SUCH HEADER LABEL"])
+        kw = c16_canon.kw_text({"strict": True})
+    else:
+        lines.append(("", [rng.choice(OBS_CODES) for _ in range(rng.randint(1, 6))]))
+        text = rinex3_header(lines, ["G L1C  0.00000  02 G01 G02", f"{'':19s}G03"], cut=1 + rng.randint(1, len(lines)))
+    return text, kw, info
+
+
+COMMENT_START = tuple("*+-%#!")
+
+
+def length_variant(rng, raw: bytes, longer: bool) -> Optional[bytes]:
+    """the same file with other line lengths: data lines (not starting with * + - % # !) get a free-text tail / lose their
+    last characters.  None when the file is not text or nothing changed."""
+    try:
+        lines = raw.decode("utf-8").splitlines(keepends=True)
+    except UnicodeDecodeError:
+        return None
+    out, changed = [], 0
+    for ln in lines:
+        body = ln.rstrip("\r\n")
+        nl = ln[len(body):]
+        if body.strip() and not body.startswith(COMMENT_START) and rng.random() < 0.35:
+            if longer:
+                body = body + " " + " ".join(rng.choice(["Ny-Alesund,", "Svalbard", "Norway", "xq", "7", "ABCDEFGH"]) for _ in range(rng.randint(1, 4)))
+                changed += 1
+            elif len(body) > 12:
+                body = body[: len(body) - rng.randint(1, 8)]
+                changed += 1
+        out.append(body + nl)
+    return "".join(out).encode("utf-8") if changed else None
+
+
+def kw_variants(name: str, fn) -> List[str]:
+    """other argument sets the parser accepts (from its signature)"""
+    import inspect
+
+    out = [{"encoding": "utf-8"}, {"encoding": "latin-1"}]
+    try:
+        params = inspect.signature(fn).parameters
+    except (TypeError, ValueError):
+        params = {}
+    if "strict" in params:
+        out.append({"strict": True})
+    if "sampling_rate" in params:
+        out.append({"sampling_rate": 30})
+    if "convert_unit" in params:
+        out.append({"convert_unit": True})
+    if "header" in params:
+        out.append({"header": False})
+    if "station" in params:
+        out.append({"station": "zzzz"})
+    return [c16_canon.kw_text(k) for k in out]
+
+
+def make_generated(rng, tmp: Path, n_headers: int, n_trunc: int, examples: List[Tuple[str, str]]):
+    """returns [(parser, path, kw, info)] of generated inputs; info carries the obs lines for header files"""
+    out = []
+    for i in range(n_headers):
+        text, kw, info = gen_header(rng, i)
         p = tmp / f"gen_header_{i:03d}.rnx"
-        p.write_text(rinex3_header(lines, phase))
-        out.append(("wip_rinex3_obs_header", str(p), {"obs_lines": lines, "wf": wf}))
+        p.write_text(text)
+        parser = "wip_rinex3_obs" if (i // len(HEADER_KINDS)) % 3 == 2 and "obs_lines" not in info else "wip_rinex3_obs_header"
+        out.append((parser, str(p), kw, info))
     cands = [e for e in examples if Path(e[1]).stat().st_size < 400_000]
     for i in range(n_trunc):
         name, path = rng.choice(cands)
@@ -175,7 +299,7 @@ def make_generated(rng, tmp: Path, n_headers: int, n_trunc: int, examples: List[
         k = rng.randint(2, len(raw) - 1)
         p = tmp / f"gen_trunc_{i:03d}_{name}"
         p.write_bytes(b"".join(raw[:k]))
-        out.append((name, str(p), {"truncated_from": path, "lines": k}))
+        out.append((name, str(p), "", {"truncated_from": path, "lines": k}))
     return out
 
 
@@ -200,6 +324,12 @@ def real_pre_cache() -> Optional[List[Tuple[str, List[str]]]]:
     f = RinexParser.parse_sys_obs_types
     w = getattr(f, "__wrapped__", None)
     c = getattr(w, "cache", None) if w is not None else None
+    if not isinstance(c, list):  # or a list in the closure of the wrapper (one per decorated function)
+        try:
+            cl = dict(zip(f.__code__.co_freevars, (x.cell_contents for x in f.__closure__ or ())))
+        except ValueError:
+            cl = {}
+        c = next((v for k, v in cl.items() if isinstance(v, list)), None)
     if not isinstance(c, list):
         return None
     out = []
@@ -225,6 +355,10 @@ def impl_obs(p) -> str:
 # -------------------------------------------------------------------------------------------------
 
 
+# -------------------------------------------------------------------------------------------------
+# histories
+
+
 def embed_generated(paths) -> Dict[str, str]:
     out = {}
     for p in set(paths):
@@ -233,9 +367,28 @@ def embed_generated(paths) -> Dict[str, str]:
     return out
 
 
+def event_paths(e) -> List[str]:
+    """the input files an event needs (the destination of a write is made by the event)"""
+    return [e[2], e[6]] if e[0] == "nest" else [e[2]]
+
+
+def event_text(e) -> str:
+    if e[0] == "write":
+        return f"write {Path(e[1]).name}<-{Path(e[2]).name}"
+    if e[0] == "nest":
+        return f"nest {Path(e[2]).name}@{e[4]}+{Path(e[6]).name}"
+    return e[0] + " " + Path(e[2]).name + ((" " + e[3]) if len(e) > 3 and e[3] else "")
+
+
 def expand(history):
-    """corpus histories name example files as $EX/<file>"""
-    return [[e[0], e[1], e[2].replace("$EX", str(EX))] for e in history]
+    """corpus histories name example files as $EX/<file>; events of older corpus files have no kw entry"""
+    out = []
+    for e in history:
+        e = [x.replace("$EX", str(EX)) if isinstance(x, str) else x for x in e]
+        if e[0] not in ("nest", "write") and len(e) < 4:
+            e = e + [""]
+        out.append(e)
+    return out
 
 
 def restore_generated(files: Dict[str, str]) -> List[str]:
@@ -248,68 +401,84 @@ def restore_generated(files: Dict[str, str]) -> List[str]:
     return made
 
 
-def run_history(history, key) -> Optional[Dict[str, str]]:
-    """run a stored history in this process; the digests of the last parse of `key` in it"""
+def observed_in(obs, key: Key, index: Optional[int] = None) -> Optional[Dict[str, str]]:
+    """the digests of the observation of `key` (at event `index`, else the last one) in the result of exec_events"""
     got = None
-    objs: Dict[str, Any] = {}
-    with quiet():
-        for e in history:
-            op, name, path = e[0], e[1], e[2]
-            if op == "parse_file":
-                _, d = c16_canon.run_parse(name, path)
-                if (name, path) == key:
-                    got = d
-            else:
-                slot = op[1:]
-                try:
-                    if op[0] == "c":
-                        objs[slot] = construct(name, path)
-                    elif op[0] == "p" and slot in objs:
-                        do_parse(objs[slot])
-                        if (name, path) == key:
-                            got = c16_canon.result_digests(objs[slot])
-                    elif op[0] == "m" and slot in objs:
-                        c16_canon.mutate_result(objs[slot])
-                except (Exception, SystemExit) as err:
-                    if (name, path) == key and op[0] == "p":
-                        got = {"error": type(err).__name__}
+    for i, k, d, _ in obs:
+        if tuple(k) == tuple(key) and (index is None or i == index):
+            got = d
     return got
 
 
+def ev(op: str, key: Key) -> List[str]:
+    return [op, key[0], key[1], key[2]]
+
+
 class Explorer:
-    def __init__(self, ctx: Ctx, fresh: Dict[Tuple[str, str], Dict[str, str]], info: Dict[Tuple[str, str], Dict],
-                 mech: str):
+    def __init__(self, ctx: Ctx, fresh: Dict[Key, Dict[str, str]], info: Dict[Key, Dict], mech: str, pool: ForkPool):
         self.ctx = ctx
-        self.fresh = fresh
+        self.fresh = fresh  # keys without an entry are history only (run, never compared)
         self.info = info
         self.mech = mech
-        self.log: List[List[str]] = []  # the whole in-process history so far (for replays)
+        self.pool = pool
+        self.log: List[List[Any]] = []  # the whole in-process history so far (for replays)
         self.parses = 0
+        self.pending: List[Tuple["cf.Future", List[List[Any]], str]] = []
 
-    def check(self, key: Tuple[str, str], dig: Dict[str, str], hist: List[List[str]], when: str):
-        want = self.fresh[key]
-        if dig != want:
-            name = key[0]
-            first = not any(v.key == f"history-dependence:{name}" for v in self.ctx.violations)
-            payload = {"history": hist, "observed": list(key), "when": when, "fresh": want, "got": dig,
-                       "earlier_in_process": len(self.log)}
-            if first:  # a self-contained replay: the whole in-process log and the text of generated inputs
-                payload["full_log"] = [list(e) for e in self.log]
-                payload["generated_files"] = embed_generated([e[2] for e in self.log] + [e[2] for e in hist])
-            self.ctx.violate(
-                f"history-dependence:{name}",
-                f"parse of {Path(key[1]).name} by {name} ({when}) differs from the parse in a fresh interpreter in "
-                f"{diff_keys(dig, want)} (fresh: {'error ' + want['error'] if 'error' in want else 'ok'}, "
-                f"here: {'error ' + dig['error'] if 'error' in dig else 'ok'})", payload)
-
-    def parse_file(self, key: Tuple[str, str], hist: List[List[str]], when: str):
-        """construct + parse (the library's parse_file), with the header model compared on generated headers"""
-        pre = real_pre_cache() if "obs_lines" in self.info.get(key, {}) else None
-        p, dig = c16_canon.run_parse(key[0], key[1])
+    # ---- verdict
+    def check(self, key: Key, dig: Dict[str, str], hist: List[List[Any]], when: str, index: Optional[int] = None,
+              in_process: bool = True, kind: str = "history-dependence", content: Optional[str] = None):
+        """`content`: for a path whose content changes during the history, the sha1 of what it held at this parse"""
+        want = self.fresh.get(key if content is None else key + (content,))
         self.parses += 1
-        self.log.append(["parse_file", key[0], key[1]])
-        self.check(key, dig, hist, when)
+        if want is None:
+            self.ctx.count("parse-as-history-only")
+            return
+        if dig == want:
+            return
+        name = key[0]
+        vkey = f"{kind}:{name}"
+        earlier = next((v for v in self.ctx.violations if v.key == vkey), None)
+        if earlier is not None and (earlier.replay.get("history_alone_reproduces_in_a_fresh_process") or in_process):
+            self.ctx.violate(vkey, "", {})  # counted; the stored replay is already self-contained (or this one is no better)
+            return
+        payload = {"history": hist, "observed": list(key), "observed_index": index, "when": when, "fresh": want, "got": dig,
+                   "run_in": "the check's own process after everything in full_log" if in_process else "a fresh process of its own"}
+        if content is not None:
+            src = next((e[2] for e in reversed(hist) if e[0] == "write" and e[1] == key[1]), None)
+            payload["reference_history"] = [["write", key[1], src], ev("parse_file", key)]
+        payload["generated_files"] = embed_generated([p for e in hist for p in event_paths(e)])
+        confirmed = not in_process
+        if in_process:  # a self-contained replay: is the short history enough in a fresh process?  else the whole log
+            try:
+                obs = self.pool.history(hist).result()
+                confirmed = observed_in([(i, tuple(k), d, w) for i, k, d, w in obs], key, index) != want
+            except common.ToolFailure:
+                confirmed = False
+        payload["history_alone_reproduces_in_a_fresh_process"] = confirmed
+        if not confirmed:
+            payload["full_log"] = [list(e) for e in self.log[-6000:]]
+            payload["generated_files"] = embed_generated([p for e in self.log[-6000:] + hist for p in event_paths(e)])
+        kw = f" with {key[2]}" if key[2] else ""
+        what = (f"parse of {Path(key[1]).name} by {name}{kw} ({when}) differs from the parse in a fresh process in "
+                f"{diff_keys(dig, want)} (fresh: {'error ' + want['error'] if 'error' in want else 'ok'}, "
+                f"here: {'error ' + dig['error'] if 'error' in dig else 'ok'}); history"
+                f"{'' if confirmed else ' (its tail; the whole log of this process is in the replay)'}: "
+                f"{' ; '.join(event_text(e) for e in hist[-8:])}")
+        if earlier is not None:  # a self-contained history replaces the one that needs the whole log
+            earlier.what, earlier.replay = what, payload
+            self.ctx.count("oracle_failures")
+            return
+        self.ctx.violate(vkey, what, payload)
+
+    # ---- in this process
+    def parse_file(self, key: Key, hist: List[List[Any]], when: str):
+        """construct + parse (the library's parse_file), with the header model compared on generated headers"""
         inf = self.info.get(key, {})
+        pre = real_pre_cache() if "obs_lines" in inf else None
+        p, dig = c16_canon.run_parse(*key)
+        self.log.append(ev("parse_file", key))
+        self.check(key, dig, hist, when, index=len(hist) - 1 if hist and hist[-1] == ev("parse_file", key) else None)
         if "obs_lines" in inf:
             m = model_obs(self.ctx.driver, self.mech, pre or [], inf["obs_lines"])
             i = impl_obs(p)
@@ -320,47 +489,80 @@ class Explorer:
                                   {"file": key[1], "pre": pre, "lines": inf["obs_lines"], "mech": self.mech}, m, i)
         return p, dig
 
+    def sequence(self, keys: List[Key], when: str):
+        """parse_file of every key in order; every one that has a reference is compared"""
+        hist = [ev("parse_file", k) for k in keys]
+        for j, k in enumerate(keys):
+            self.parse_file(k, hist[: j + 1], f"{when}, parse {j + 1} of {len(keys)}")
+
+    @staticmethod
+    def contents(events: List[List[Any]]) -> List[Dict[str, str]]:
+        """for every event index: {path: sha1 of what a `write` event put there before}"""
+        cur: Dict[str, str] = {}
+        out = []
+        for e in events:
+            if e[0] == "write":
+                cur = dict(cur)
+                cur[e[1]] = sha(e[2])
+            out.append(cur)
+        return out
+
+    def events(self, events: List[List[Any]], when: str, kind: str = "history-dependence"):
+        """run a history of events here (after everything that ran before) and compare every observation"""
+        obs = c16_canon.exec_events(events)
+        self.log.extend([list(e) for e in events])
+        cont = self.contents(events)
+        for i, k, d, what in obs:
+            self.check(tuple(k), d, events[: i + 1], f"{when}: {what}", index=i, kind=kind, content=cont[i].get(k[1]))
+        return obs
+
+    # ---- in a fresh process of its own
+    def events_fresh(self, events: List[List[Any]], when: str):
+        self.pending.append((self.pool.history(events), events, when))
+
+    def collect_fresh(self):
+        for fut, events, when in self.pending:
+            obs = fut.result()
+            cont = self.contents(events)
+            for i, k, d, what in obs:
+                self.check(tuple(k), d, events[: i + 1], f"{when}: {what}", index=i, in_process=False, content=cont[i].get(k[1]))
+            self.ctx.count("history-in-own-fresh-process")
+        self.pending = []
+
 
 def interleavings():
-    ev = ["cA", "pA", "mA", "cB", "pB"]
-    for perm in itertools.permutations(ev):
+    evs = ["cA", "pA", "mA", "cB", "pB"]
+    for perm in itertools.permutations(evs):
         ix = {e: i for i, e in enumerate(perm)}
         if ix["cA"] < ix["pA"] < ix["mA"] and ix["cB"] < ix["pB"]:
             yield list(perm)
 
 
-def run_interleaving(ex: Explorer, order: List[str], A: Tuple[str, str], B: Tuple[str, str]):
-    """one interleaving of {construct A, construct B, parse A, parse B, mutate result A}, then a new instance for A"""
-    hist = [[e, *(A if e.endswith("A") else B)] for e in order] + [["cA2", *A], ["pA2", *A]]
-    objs: Dict[str, Any] = {}
-    digs: Dict[str, Dict[str, str]] = {}
-    with quiet():
-        for e in order + ["cA2", "pA2"]:
-            slot = e[1:]
-            key = A if slot.startswith("A") else B
-            try:
-                if e[0] == "c":
-                    objs[slot] = construct(*key)
-                elif e[0] == "p":
-                    if slot in objs:
-                        do_parse(objs[slot])
-                        digs[slot] = c16_canon.result_digests(objs[slot])
-                        ex.parses += 1
-                elif e[0] == "m":
-                    if slot in objs and slot in digs:
-                        c16_canon.mutate_result(objs[slot])
-            except (Exception, SystemExit) as err:
-                digs[slot] = {"error": type(err).__name__}
-                objs.pop(slot, None)
-            ex.log.append([e, *key])
-    for slot, dig in digs.items():
-        key = A if slot.startswith("A") else B
-        ex.check(key, dig, hist, f"event p{slot} of interleaving {' '.join(order)}")
-    # late observation: B's result must still be what it was after A's result was mutated
-    if "B" in objs and "error" not in digs.get("B", {"error": 1}):
-        with quiet():
-            late = c16_canon.result_digests(objs["B"])
-        ex.check(B, late, hist, f"result of B re-read at the end of interleaving {' '.join(order)}")
+def interleaving_events(order: List[str], A: Key, B: Key) -> List[List[Any]]:
+    """one interleaving of {construct A, construct B, parse A, parse B, mutate result A}, then a new instance for A, then
+    B's result looked at again (it must still be what it was although A's result was mutated)"""
+    return [ev(e, A if e.endswith("A") else B) for e in order] + [ev("cA2", A), ev("pA2", A), ev("oB", B)]
+
+
+def split_events(A: Key, B: Key, B2: Key) -> List[List[Any]]:
+    """A parsed in the three public steps of Parser.parse() with complete parses of other objects in between"""
+    return [ev("cA", A), ev("sA", A), ev("parse_file", B), ev("rA", A), ev("cB", B2), ev("pB", B2), ev("mB", B2), ev("fA", A),
+            ev("parse_file", A)]
+
+
+def euler_circuit(n: int) -> List[int]:
+    """a closed walk over 0..n-1 in which every ordered pair (i, j), i = j included, is adjacent exactly once
+    (Hierholzer on the complete digraph with loops); length n*n + 1"""
+    nxt = [0] * n
+    stack, out = [0], []
+    while stack:
+        v = stack[-1]
+        if nxt[v] < n:
+            stack.append(nxt[v])
+            nxt[v] += 1
+        else:
+            out.append(stack.pop())
+    return out[::-1]
 
 
 def plugin_oracle(ctx: Ctx, tmp: Path):
@@ -483,6 +685,12 @@ def static_id_for(dyn_id: str, kind: str, static_cells: Dict[str, str]) -> Optio
                 return sid
     if kind == "lrucache":
         return dyn_id if dyn_id in static_cells else None
+    if kind == "closure":
+        var = rest.rsplit(".<closure>.", 1)[-1]
+        for sid, sk in static_cells.items():
+            if sk == "closure" and sid.startswith(mod + ":") and sid.endswith(".<closure>." + var):
+                return sid
+        return None
     if kind == "default":
         for sid, sk in static_cells.items():
             if sk == "default" and sid.startswith(mod + ":"):
@@ -495,6 +703,71 @@ def static_id_for(dyn_id: str, kind: str, static_cells: Dict[str, str]) -> Optio
     return None
 
 
+def table_tie(ctx, drv, tinfo, snap2, catalog, fresh):
+    """run-time validation of the level / instance-cell / escape columns of the static table: for every parser that
+    parses an example, two live objects on the same file -
+      * every attribute the objects really carry is an instance cell the table lists for a class of the MRO,
+      * attributes the table calls ctor-initialised exist right after construction,
+      * no mutable container or array is reachable from both objects, or from an object and a process-wide cell
+        (`instance_cells_fresh`, `no_shared_cell_escapes` say so statically)."""
+    rows = tinfo["instance_cells"]
+    by_class: Dict[str, Dict[str, Dict]] = {}
+    loose: Dict[str, Dict] = {}
+    for rid, r in rows.items():
+        mod_cls, attr = rid.split(".self.", 1)
+        cls = mod_cls.split(":", 1)[1]
+        if cls == "*":
+            loose[attr] = r
+        else:
+            by_class.setdefault(cls, {})[attr] = r
+    ctx.extra["instance_cells_static"] = {"rows": len(rows), "ctor_initialised": sum(1 for r in rows.values() if r["ctor"]),
+                                          "created_later": sorted(k for k, r in rows.items() if not r["ctor"])}
+    ctx.extra["trusted_cells"] = drv.ask1("c16 trusted").split(",")
+    ctx.extra["cells_by_level"] = {lv: sum(1 for v in tinfo["levels"].values() if v == lv) for lv in sorted(set(tinfo["levels"].values()))}
+    ctx.extra["escape_sites_static"] = tinfo["escapes"]
+    seen_parsers = set()
+    for key in catalog:
+        if key[0] in seen_parsers or "error" in fresh.get(key, {"error": 1}):
+            continue
+        seen_parsers.add(key[0])
+        with quiet():
+            try:
+                a = c16_canon.construct(*key)
+                after_ctor = set(vars(a))
+                c16_canon.do_parse(a)
+                b = c16_canon.do_parse(c16_canon.construct(*key))
+            except (Exception, SystemExit):
+                continue
+        mro = [c.__name__ for c in type(a).__mro__ if c is not object]
+        listed: Dict[str, Dict] = dict(loose)
+        for cn in reversed(mro):
+            listed.update(by_class.get(cn, {}))
+        ctx.case({"phase": "table-tie", "parser": key[0]}, nontrivial=True)
+        ctx.count("table-tie:parser-objects-inspected")
+        for attr in sorted(set(vars(a)) | set(vars(b))):
+            ctx.count("table-tie:instance-attribute")
+            if attr not in listed:
+                ctx.disagree("static instance cells ⊇ attributes a parser object really carries",
+                             {"parser": key[0], "class": mro[0], "attribute": attr}, "listed in Generated.ParserEffects.instanceCells", "not listed")
+        for attr, r in listed.items():
+            if r["ctor"] and attr in vars(a) and attr not in after_ctor and any(attr in by_class.get(cn, {}) for cn in mro):
+                ctx.disagree("ctor-initialised instance cells exist after construction", {"parser": key[0], "attribute": attr},
+                             "bound in __init__", "missing after construction")
+        with quiet():
+            ba, bb = c16_canon.reachable_boxes(vars(a)), c16_canon.reachable_boxes(vars(b))
+            ra = c16_canon.reachable_boxes({"as_dict": a.as_dict(), "meta": a.meta, "header": getattr(a, "header", None)})
+            shared = c16_canon.shared_boxes(REPO)
+        ctx.count("table-tie:mutable-objects-of-an-instance", len(ba))
+        both = sorted(ba[i] for i in set(ba) & set(bb))
+        if both:
+            ctx.disagree("two live parser objects share no mutable object (instance_cells_fresh)",
+                         {"parser": key[0], "file": key[1]}, "disjoint", f"shared: {both[:5]}")
+        leaked = sorted(f"{ra[i]} is {shared[i]}" for i in set(ra) & set(shared))
+        if leaked:
+            ctx.disagree("no process-wide mutable object is reachable from a result (no_shared_cell_escapes)",
+                         {"parser": key[0], "file": key[1]}, "none", f"{leaked[:5]}")
+
+
 def run(ctx: Ctx):
     t_start = time.time()
     # ---- 1. translate
@@ -503,59 +776,157 @@ def run(ctx: Ctx):
     tinfo = extract_effects.main()
     static_cells: Dict[str, str] = tinfo["all_cells"]
     effects = set(tinfo["effects"])
-    mech = "shared" if any(static_cells.get(e) == "funcattr" and e.startswith("midgard.parsers._parser_rinex:") for e in effects) else "local"
+    mech = "shared" if any(static_cells.get(e) in ("funcattr", "closure") and e.startswith("midgard.parsers._parser_rinex:") for e in effects) else "local"
     ctx.count(f"cache-mechanism={mech}")
     # ---- 2. prove
     ctx.proof = common.prove("C16")
+    ctx.extra["wall_translate_prove_s"] = round(time.time() - t_start, 1)
     drv = ctx.driver
     rng = ctx.rng
     ctx.trusted += [
         "soundness of the ast effect extraction for a dynamic language (translator/extract_effects.py): validated on this run "
         "against the cells that really changed (run-time snapshots), not proved",
-        "that each real parser operation satisfies NonInterfering for the cover the table claims: validated by the "
-        "history exploration against fresh interpreters, not proved",
+        "that each real parser operation respects the frame (read set / write set) the table gives it - the hypothesis "
+        "`Framed` of table_noninterference: validated by the history exploration against fresh processes, not proved",
         "the canonical digests of harness/c16_canon.py (deep structural form of as_dict()/meta/header)",
     ]
-    ctx.assumptions += ["a parse in a fresh interpreter (subprocess) is the reference result",
+    ctx.assumptions += ["a parse in a process that never loaded a parser plug-in nor constructed a parser (forked from a server "
+                        "holding numpy/pandas/scipy/pint and the imported package midgard.parsers) is the reference result; "
+                        "cross-checked on this run against interpreters started from scratch",
                         "lru_cache'd functions are deterministic (C08 checks that claim)"]
     tmp = Path(tempfile.mkdtemp(prefix="c16-"))
+    pool = ForkPool(12)
     try:
-        _explore(ctx, drv, rng, tmp, static_cells, effects, mech, tinfo)
+        _explore(ctx, drv, rng, tmp, static_cells, effects, mech, tinfo, pool)
     finally:
+        pool.close()
         shutil.rmtree(tmp, ignore_errors=True)
     ctx.extra["wall_explore_s"] = round(time.time() - t_start, 1)
 
 
-def _explore(ctx, drv, rng, tmp, static_cells, effects, mech, tinfo):
+def _explore(ctx, drv, rng, tmp, static_cells, effects, mech, tinfo, pool):
     from midgard import parsers
+    from midgard.dev import plugins
 
+    T = ctx.thorough
     with quiet():
         names = parsers.names()
     files = sorted(p.name for p in EX.iterdir())
-    catalog: List[Tuple[str, str]] = []
+    catalog: List[Key] = []
     for n in names:
         cands = EXTRA_EXAMPLES.get(n) or [f for f in files if f == n or f.startswith(n)]
         for f in cands:
             if (EX / f).exists():
-                catalog.append((n, str(EX / f)))
-    info: Dict[Tuple[str, str], Dict] = {}
-    gen = make_generated(rng, tmp, ctx.budget(9, 40), ctx.budget(8, 60), catalog)
-    for n, p, inf in gen:
-        info[(n, p)] = inf
-    gen_keys = [(n, p) for n, p, _ in gen]
-    all_keys = catalog + gen_keys
-    hashes0 = {k[1]: sha(k[1]) for k in all_keys}
+                catalog.append((n, str(EX / f), ""))
+    info: Dict[Key, Dict] = {}
+    gen = make_generated(rng, tmp, ctx.budget(12, 48), ctx.budget(8, 60), [(k[0], k[1]) for k in catalog])
+    for n, p, kw, inf in gen:
+        info[(n, p, kw)] = inf
+        ctx.count("generated:" + inf.get("header_kind", "truncated-example"))
+    gen_keys: List[Key] = [(n, p, kw) for n, p, kw, _ in gen]
+    header_keys = [k for k in gen_keys if "header_kind" in info[k]]
 
-    # ---- reference: every input parsed in its own fresh interpreter
+    # ---- per parser: the same file with other line lengths, the same file with other arguments
+    fam: Dict[str, List[Key]] = {}
+    for k in catalog:
+        fam.setdefault(k[0], []).append(k)
+    variants: Dict[str, Dict[str, List[Key]]] = {}
+    for n, ks in fam.items():
+        v = variants.setdefault(n, {"short": [], "long": [], "kw": []})
+        src = ks[0]
+        raw = Path(src[1]).read_bytes()
+        if len(raw) < 300_000:
+            for longer in (False, True):
+                b = length_variant(rng, raw, longer)
+                if b is not None:
+                    p = tmp / f"var_{'long' if longer else 'short'}_{n}"
+                    p.write_bytes(b)
+                    v["long" if longer else "short"].append((n, str(p), ""))
+                    info[(n, str(p), "")] = {"length_variant_of": src[1], "longer": longer}
+        try:
+            fn = plugins.get("midgard.parsers", n).function
+            kws = kw_variants(n, fn)
+        except Exception:
+            kws = []
+        v["kw"] = [(n, src[1], kw) for kw in kws]
+    var_keys = [k for v in variants.values() for kind in ("short", "long") for k in v[kind]]
+    kw_keys = [k for v in variants.values() for k in v["kw"]]
+    ctx.count("generated:length-variant", len(var_keys))
+    ctx.count("generated:argument-variant", len(kw_keys))
+
+    # ---- reference: every compared input parsed in a fresh process of its own
+    #      (quick: the variants are history only except a sample; thorough: everything has a reference)
+    compared: List[Key] = catalog + gen_keys
+    if T:
+        compared += var_keys + kw_keys
+    else:
+        compared += rng.sample(var_keys, min(10, len(var_keys))) + rng.sample(kw_keys, min(16, len(kw_keys)))
+    all_keys = catalog + gen_keys + var_keys + kw_keys
+    hashes0 = {k[1]: sha(k[1]) for k in all_keys}
+    # ---- the same path with other content over time: per parser a path that holds its examples (and a variant / a file
+    #      of another parser) one after the other; the reference of every (path, content) is a parse in a fresh process
+    slots: Dict[str, Tuple[str, List[str]]] = {}
+    multi = [n for n, ks in fam.items() if len({sha(k[1]) for k in ks}) > 1]
+    single = [n for n in fam if n not in multi]
+    for n in multi + (single if T else rng.sample(single, min(6, len(single)))):
+        srcs = []
+        for k in fam[n]:
+            if k[1] not in srcs and Path(k[1]).stat().st_size < 400_000:
+                srcs.append(k[1])
+        srcs += [k[1] for k in variants[n]["short"]]
+        if len(srcs) < 2:
+            other = rng.choice([k for k in catalog if k[0] != n and Path(k[1]).stat().st_size < 100_000])
+            srcs.append(other[1])
+        if len(srcs) >= 2:
+            slots[n] = (str(tmp / f"slot_{n}_{Path(srcs[0]).name}"), srcs[:4])
     t_f = time.time()
-    fresh = fresh_many(all_keys)
-    ctx.extra["wall_fresh_interpreters_s"] = round(time.time() - t_f, 1)
+    futs = {k: pool.parse(k) for k in compared}
+    # (one content after the other per path: every reference process writes the path itself)
+    slot_ex = cf.ThreadPoolExecutor(max_workers=6)
+
+    def slot_refs(n, slot, srcs):
+        return {(n, slot, "", sha(src)): pool._one({"kind": "history", "events": [["write", slot, src], ["parse_file", n, slot, ""]]})[-1][2]
+                for src in srcs}
+
+    slot_futs = [slot_ex.submit(slot_refs, n, slot, srcs) for n, (slot, srcs) in slots.items()]
+    tie_keys = catalog if T else rng.sample(catalog, 8)
+    with cf.ThreadPoolExecutor(max_workers=8) as exr:
+        tie = dict(zip(tie_keys, exr.map(true_fresh, tie_keys)))
+    fresh: Dict[Any, Dict[str, str]] = {k: f.result() for k, f in futs.items()}
+    for f in slot_futs:
+        fresh.update(f.result())
+    slot_ex.shutdown()
+    ctx.count("reference:same-path-other-content", sum(len(v[1]) for v in slots.values()))
+    ctx.extra["wall_references_s"] = round(time.time() - t_f, 1)
+    for k, d in tie.items():
+        ctx.count("reference-cross-checked-with-fresh-interpreter")
+        if d != fresh[k]:
+            ctx.disagree("reference: parse in a forked fresh process = parse in a fresh interpreter", {"key": list(k)}, fresh[k], d)
     parsing = [k for k in catalog if "error" not in fresh[k]]
     ctx.extra["parsers_listed"] = len(names)
     ctx.extra["parsers_parsing_an_example"] = len({k[0] for k in parsing})
-    ctx.extra["inputs"] = {"example": len(catalog), "generated": len(gen_keys),
+    ctx.extra["inputs"] = {"example": len(catalog), "generated": len(gen_keys), "length_variants": len(var_keys),
+                           "argument_variants": len(kw_keys), "with_reference": len(compared),
                            "example_inputs_that_raise": sorted(f"{k[0]}:{Path(k[1]).name}:{fresh[k]['error']}" for k in catalog if "error" in fresh[k])}
-    ex = Explorer(ctx, fresh, info, mech)
+    ex = Explorer(ctx, fresh, info, mech, pool)
+
+    # ---- histories that run in a fresh process of their own (started now, collected at the end).  Per parser two
+    #      orders of {other arguments, shorter lines, examples, mutate result + parse again, longer lines}: a memo that
+    #      the first file / the first argument set of the process decides is seen in one of them
+    for n, ks in fam.items():
+        v = variants[n]
+        kwv = v["kw"][:]
+        rng.shuffle(kwv)
+        kwv = kwv[: (3 if T else 1)]
+        up = [ev("parse_file", k) for k in kwv + v["short"] + ks] + [ev("cA", ks[0]), ev("pA", ks[0]), ev("mA", ks[0]), ev("parse_file", ks[0])] \
+            + [ev("parse_file", k) for k in v["long"]]
+        down = [ev("parse_file", k) for k in v["long"] + ks[::-1] + v["short"] + kwv[::-1] + ks[:1]]
+        ex.events_fresh(up, f"history of {n} in a fresh process of its own (other arguments, shorter lines first)")
+        ex.events_fresh(down, f"history of {n} in a fresh process of its own (longer lines first)")
+    hk = header_keys[:]
+    for r in range(ctx.budget(2, 8)):
+        rng.shuffle(hk)
+        ex.events_fresh([ev("parse_file", k) for k in hk], "generated RINEX headers in a fresh process of their own")
 
     # ---- static table vs run-time cells: snapshot after loading every plug-in, before any parse
     snap0 = c16_canon.snapshot_cells(REPO)
@@ -566,100 +937,207 @@ def _explore(ctx, drv, rng, tmp, static_cells, effects, mech, tinfo):
         c["history"] = expand(c["history"])
         made = restore_generated(c.get("generated_files"))
         try:
-            key = tuple(c["observed"])
-            if all(Path(e[2]).exists() for e in c["history"]):
-                want = worker("parse", {"parser": key[0], "path": key[1]})
-                got = run_history(c["history"], key)
+            key = tuple((list(c["observed"]) + [""])[:3])
+            if all(Path(p).exists() for e in c["history"] for p in event_paths(e)):
+                want = pool.parse(key).result()
+                got = observed_in(c16_canon.exec_events(c["history"]), key)
                 ex.log.extend([list(e) for e in c["history"]])
                 ctx.case({"phase": "corpus", "file": cf_.name}, nontrivial=True)
                 ctx.count("corpus-history")
                 if got != want:
                     ctx.violate(f"history-dependence:{key[0]}", f"corpus history {cf_.name}: parse of {Path(key[1]).name} by {key[0]} "
-                                f"differs from the parse in a fresh interpreter in {diff_keys(got or {}, want)}",
+                                f"differs from the parse in a fresh process in {diff_keys(got or {}, want)}",
                                 {"history": c["history"], "observed": list(key), "generated_files": c.get("generated_files"),
                                  "fresh": want, "got": got})
         finally:
             for p_ in made:
                 Path(p_).unlink(missing_ok=True)
 
-    # ---- phase 1: every input once (chain), timed; then ordered pairs
-    cost: Dict[Tuple[str, str], float] = {}
-    order1 = all_keys[:]
+    # ---- phase 1: every input once (chain), timed
+    cost: Dict[Key, float] = {}
+    rest = [k for k in var_keys + kw_keys if k not in fresh]
+    order1 = catalog + gen_keys + [k for k in var_keys + kw_keys if k in fresh] + (rest if T else rng.sample(rest, min(50, len(rest))))
     rng.shuffle(order1)
-    for k in order1:
+    for j, k in enumerate(order1):
         t = time.time()
-        hist = [["parse_file", *x] for x in order1[: order1.index(k) + 1]]
-        ex.parse_file(k, hist[-6:], "first pass over all inputs (everything before it in this process is history)")
+        hist = [ev("parse_file", x) for x in order1[max(0, j - 5): j + 1]]
+        ex.parse_file(k, hist, "first pass over all inputs (everything before it in this process is history)")
         cost[k] = time.time() - t
         ctx.case({"phase": "chain", "key": list(k)}, nontrivial=True)
         ctx.count("parse-in-history")
     snap1 = c16_canon.snapshot_cells(REPO)
     ctx.extra["wall_chain_s"] = round(sum(cost.values()), 1)
-
-    cheap = [k for k in all_keys if cost[k] < 0.12]
-    fam: Dict[str, List[Tuple[str, str]]] = {}
     for k in all_keys:
-        fam.setdefault(k[0], []).append(k)
-    # pairs: same-parser pairs (incl. the same file twice) exhaustively for small families, others sampled / all
-    pairs: List[Tuple[Tuple[str, str], Tuple[str, str]]] = []
-    for n, ks in fam.items():
-        for a in ks[:4]:
-            for b in ks[:4]:
-                pairs.append((a, b))
-    budget_s = 7.0 if not ctx.thorough else 150.0
-    cross = [(a, b) for a in all_keys for b in all_keys if a[0] != b[0]]
-    rng.shuffle(cross)
-    t0 = time.time()
-    done = 0
-    for a, b in pairs + cross:
-        if time.time() - t0 > budget_s:
-            break
-        if cost[a] + cost[b] > 0.5 and done > 50 and not ctx.thorough:
-            continue
-        hist = [["parse_file", *a], ["parse_file", *b], ["parse_file", *a]]
-        ex.parse_file(a, hist, "A in the ordered pair A,B,A")
-        ex.parse_file(b, hist, "B right after A")
-        ex.parse_file(a, hist, "A again after B")
-        ctx.case({"phase": "pair", "A": list(a), "B": list(b)}, nontrivial=True)
-        ctx.count("ordered-pair" + ("-same-parser" if a[0] == b[0] else ""))
-        done += 1
-    ctx.extra["ordered_pairs"] = done
+        cost.setdefault(k, cost.get((k[0], variants[k[0]]["kw"][0][1], ""), 0.05) if k[0] in variants and variants[k[0]]["kw"] else 0.05)
+    cheap_limit = 0.12
+    cheap = [k for k in catalog + gen_keys if cost[k] < cheap_limit]
 
-    # ---- phase 2: all ten interleavings of {cA, cB, pA, pB, mA} (+ a new instance for A) per pair
-    inter = list(interleavings())
-    same = [(a, b) for n, ks in fam.items() for a in ks[:3] for b in ks[:3]]
-    crossc = [(a, b) for a in cheap for b in cheap if a[0] != b[0]]
-    rng.shuffle(crossc)
-    budget_s = 7.0 if not ctx.thorough else 150.0
-    t0 = time.time()
+    marks: List[Tuple[str, float]] = [("chain", time.time())]
+
+    def mark(name: str):
+        marks.append((name, time.time()))
+
+    def timed(budget_s: float):
+        t0 = time.time()
+        return lambda: time.time() - t0 > budget_s
+
+    mark("header-pairs")
+    # ---- phase 2: generated headers: every ordered pair X,Y,X (a parse that raised in the header, then a header that
+    #      starts with a continuation line, …)
+    hsel = header_keys if T else header_keys[:12]
+    out_of_time = timed(30.0 if T else 2.5)
+    for a in hsel:
+        for b in hsel:
+            if out_of_time():
+                break
+            ex.sequence([a, b, a], "ordered pair X,Y,X of generated headers")
+            ctx.case({"phase": "header-pair", "A": list(a), "B": list(b)}, nontrivial=True)
+            ctx.count("ordered-pair-generated-headers")
+            ctx.count(f"header-pair:{info[a]['header_kind']}→{info[b]['header_kind']}")
+
+    mark("pairs")
+    # ---- phase 3: per parser A,B,A over its inputs (examples, variants, other arguments), cheapest parsers first so
+    #      that the time budget cuts the expensive tail, not an alphabetical one
+    out_of_time = timed(60.0 if T else 4.0)
+    fams = sorted(fam, key=lambda n: sum(cost[k] for k in fam[n]))
     npairs = 0
-    for a, b in same + crossc:
-        if time.time() - t0 > budget_s:
-            break
-        if cost[a] + cost[b] > 0.25 and not ctx.thorough:
+    for n in fams:
+        v = variants[n]
+        members = fam[n][:4] + v["short"] + v["long"] + (v["kw"] if T else v["kw"][:2])
+        for a in members:
+            for b in members:
+                if out_of_time():
+                    break
+                if not T and a not in fam[n] and b not in fam[n]:
+                    continue
+                ex.sequence([a, b, a], "A,B,A of one parser")
+                ctx.case({"phase": "pair", "A": list(a), "B": list(b)}, nontrivial=True)
+                ctx.count("ordered-pair-same-parser")
+                npairs += 1
+    # cross-parser pairs sampled
+    out_of_time = timed(20.0 if T else 1.5)
+    while not out_of_time():
+        a, b = rng.choice(cheap), rng.choice(cheap)
+        if a[0] == b[0]:
             continue
-        for order in inter:
-            run_interleaving(ex, order, a, b)
+        ex.sequence([a, b, a], "A,B,A of two parsers")
+        ctx.case({"phase": "pair", "A": list(a), "B": list(b)}, nontrivial=True)
+        ctx.count("ordered-pair")
+        npairs += 1
+    ctx.extra["ordered_pairs"] = npairs
+
+    mark("interleavings")
+    # ---- phase 4: two live objects: all ten interleavings of {cA, cB, pA, pB, mA} (+ a new instance for A, B looked at
+    #      again); every parser gets three of the ten with its own files first, then all ten under the time budget
+    inter = list(interleavings())
+    same = [(a, b) for n in fams for a in fam[n][:2] for b in (fam[n] + variants[n]["kw"][:1])[:3]]
+    out_of_time = timed(60.0 if T else 3.0)
+    ninter = 0
+    for a, b in same:
+        if out_of_time():
+            break
+        for order in (inter if T else rng.sample(inter, 3)):
+            ex.events(interleaving_events(order, a, b), f"interleaving {' '.join(order)}")
             ctx.case({"phase": "interleaving", "order": order, "A": list(a), "B": list(b)}, nontrivial=True)
             ctx.count("interleaving")
-        npairs += 1
-    ctx.extra["interleaved_pairs"] = npairs
+        ninter += 1
+    crossc = [(a, b) for a in cheap for b in cheap if a[0] != b[0]]
+    rng.shuffle(crossc)
+    out_of_time = timed(20.0 if T else 1.5)
+    for a, b in crossc:
+        if out_of_time():
+            break
+        for order in inter:
+            ex.events(interleaving_events(order, a, b), f"interleaving {' '.join(order)}")
+            ctx.case({"phase": "interleaving", "order": order, "A": list(a), "B": list(b)}, nontrivial=True)
+            ctx.count("interleaving")
+        ninter += 1
+    ctx.extra["interleaved_pairs"] = ninter
 
-    # ---- phase 3 (thorough): ordered triples
-    if ctx.thorough:
-        t0 = time.time()
+    mark("split+nested")
+    # ---- phase 5: A parsed partly, then B, then A finished: (a) the three public steps of Parser.parse() with complete
+    #      parses of other objects (one of them mutated) in between; (b) B's complete parse nested at the k-th function
+    #      entry of midgard/parsers inside A.parse() (a logger / callback / other thread of the caller)
+    out_of_time = timed(25.0 if T else 2.0)
+    for n in fams:
+        if out_of_time():
+            break
+        a = fam[n][0]
+        others = (fam[n] + variants[n]["short"] + variants[n]["kw"][:1])
+        b, b2 = rng.choice(others), rng.choice(others)
+        ex.events(split_events(a, b, b2), "A in the three public steps of parse() around complete parses of B")
+        ctx.case({"phase": "split-parse", "A": list(a), "B": list(b), "B2": list(b2)}, nontrivial=True)
+        ctx.count("split-parse")
+    out_of_time = timed(40.0 if T else 2.5)
+    nest_pairs = [(a, b) for a in header_keys[:6] for b in header_keys[:6]] if not T else [(a, b) for a in header_keys[:12] for b in header_keys[:12]]
+    per_fam = [(fam[n][0], rng.choice(fam[n] + variants[n]["short"])) for n in fams if cost[fam[n][0]] < (cheap_limit if T else 0.05)]
+    calls: Dict[Key, int] = {}
+    for a, b in per_fam + nest_pairs:
+        if out_of_time():
+            break
+        if a not in calls:
+            with quiet():
+                try:
+                    calls[a] = c16_canon.count_calls(c16_canon.construct(*a))
+                except (Exception, SystemExit):
+                    calls[a] = 0
+            ex.log.append(ev("parse_file", a))
+        if calls[a] < 2:
+            continue
+        ks_ = sorted({1 + calls[a] // 2, rng.randint(2, calls[a]), calls[a]})
+        for kk in (ks_ if T or "header_kind" in info.get(a, {}) else ks_[:2]):
+            ex.events([["nest", a[0], a[1], a[2], kk, b[0], b[1], b[2]]], "nested parse", kind="nested-parse-dependence")
+            ctx.case({"phase": "nested", "A": list(a), "k": kk, "of": calls[a], "B": list(b)}, nontrivial=True)
+            ctx.count("nested-parse")
+
+    mark("same-path-other-content")
+    # ---- phase 5c: the same path holds other content later (a working file that is overwritten / downloaded again):
+    #      c0, c1, c0, c2, … parsed through the same path; every parse = fresh parse of the content the path holds now
+    for n, (slot, srcs) in slots.items():
+        seq = [srcs[0]] + [x for c in srcs[1:] for x in (c, srcs[0])]
+        events = [x for src in seq for x in (["write", slot, src], ["parse_file", n, slot, ""])]
+        ex.events(events, "same path, other content")  # (nobody parsed this path before: as good as a process of its own)
+        if sha(slot) != sha(seq[-1]):
+            ctx.violate(f"file-modified:{n}", f"input file {slot} changed during parsing", {"file": slot, "history": events})
+        ctx.case({"phase": "same-path-other-content", "parser": n, "contents": [Path(x).name for x in seq]}, nontrivial=True)
+        ctx.count("same-path-other-content")
+        ctx.count("same-path-other-content:parses", len(seq))
+
+    mark("thorough-walk")
+    # ---- phase 6 (thorough): every example file next to every example file in both orders (an Euler circuit over all
+    #      ordered pairs, every parse compared), then random ordered triples
+    if T:
+        sel = [k for k in catalog if cost[k] < 0.6]
+        walk = euler_circuit(len(sel))
+        out_of_time = timed(150.0)
+        done = 0
+        for j, ix in enumerate(walk):
+            if out_of_time():
+                break
+            k = sel[ix]
+            ex.parse_file(k, [ev("parse_file", sel[x]) for x in walk[max(0, j - 2): j + 1]], "walk over every ordered pair of example files")
+            done += 1
+        ctx.count("euler-walk-parses", done)
+        ctx.extra["example_pairs_adjacent_in_both_orders"] = {"files": len(sel), "walk_length": len(walk), "walked": done}
+        out_of_time = timed(20.0)
         ntr = 0
-        while time.time() - t0 < 80.0:
+        while not out_of_time():
             tri = [rng.choice(cheap) for _ in range(3)]
-            hist = [["parse_file", *k] for k in tri]
-            for j, k in enumerate(tri):
-                ex.parse_file(k, hist, f"parse {j + 1} of an ordered triple")
+            ex.sequence(tri, "ordered triple")
             ctx.case({"phase": "triple", "keys": [list(k) for k in tri]}, nontrivial=True)
             ctx.count("ordered-triple")
             ntr += 1
         ctx.extra["ordered_triples"] = ntr
     snap2 = c16_canon.snapshot_cells(REPO)
 
+    mark("collect-fresh-histories")
+    # ---- the histories that ran in fresh processes of their own
+    t_c = time.time()
+    ex.collect_fresh()
+    ctx.extra["wall_wait_for_fresh_histories_s"] = round(time.time() - t_c, 1)
+    ctx.extra["fresh_process_jobs"] = pool.jobs
+
+    mark("tables")
     # ---- files untouched
     for path, h0 in hashes0.items():
         if sha(path) != h0:
@@ -690,7 +1168,9 @@ def _explore(ctx, drv, rng, tmp, static_cells, effects, mech, tinfo):
     ne, nc = drv.ask1("c16 effects").split()
     ctx.extra["static_effects"] = int(ne)
     ctx.extra["static_effects_covered"] = int(nc)
+    table_tie(ctx, drv, tinfo, snap2, catalog, fresh)
 
+    mark("registry-model")
     # ---- registry model vs plugins.get in fresh interpreters
     known = [n for n in names]
     jobs = []
@@ -708,17 +1188,26 @@ def _explore(ctx, drv, rng, tmp, static_cells, effects, mech, tinfo):
         if m != impl:
             ctx.disagree("registry model (regGet/regExists) vs plugins.get/load/exists", {"questions": seq}, m, impl)
 
+    mark("plugin-oracle")
     # ---- plug-in oracle
     plugin_oracle(ctx, tmp)
     plugin_history_oracle(ctx, rng)
+    mark("end")
+    ctx.extra["wall_phases_s"] = {a[0]: round(b[1] - a[1], 1) for a, b in zip(marks, marks[1:])}
     ctx.traces = ex.parses
     ctx.extra["in_process_events"] = len(ex.log)
-    ctx.rule = ("inputs: every (parser, example file) of tests/parsers/example_files + generated RINEX-3 headers (well-formed and "
-                "starting with a continuation line) + truncated example files; histories: one chain over all inputs, ordered "
-                "pairs A,B,A (same-parser pairs incl. the same file twice exhaustive, cross-parser sampled by time budget), all "
-                "10 interleavings of {construct A, construct B, parse A, parse B, mutate result A} followed by a new instance "
-                "for A, thorough: random ordered triples; every parse compared with a parse in a fresh interpreter; a case is "
-                "a history, distinct by its canonical event list")
+    ctx.rule = ("inputs: every (parser, example file) of tests/parsers/example_files; per parser the first example with shorter / "
+                "longer data lines and with other keyword arguments (encoding, strict, sampling_rate, convert_unit, header, station "
+                "as the signature allows); generated RINEX-3 headers of six classes (plain, starting with a continuation line, raising "
+                "after OBS TYPES lines were handled, PHASE SHIFT block starting with a continuation line, unknown label under "
+                "strict=True, cut short inside a continuation block); truncated example files. Histories in this process: one chain "
+                "over all inputs, every ordered pair X,Y,X of generated headers, per parser A,B,A over its inputs, sampled cross-parser "
+                "pairs, interleavings of {construct A, construct B, parse A, parse B, mutate result A} + new instance + B re-read, A in "
+                "the three public steps of parse() around parses of B, B's parse nested at the k-th function entry inside A's parse; "
+                "thorough: an Euler walk over every ordered pair of example files and random triples. Histories in fresh processes of "
+                "their own: per parser two orders of {other arguments, shorter lines, examples, mutate + parse again, longer lines}, "
+                "shuffled generated headers. Every parse of an input that has a reference is compared with a parse in a fresh "
+                "process; a case is a history, distinct by its canonical event list")
 
 
 def replay(payload):
@@ -747,19 +1236,25 @@ def replay(payload):
             return 1 if hit else 0
         print(json.dumps(c, indent=1)[:2000])
         return 0
-    key = tuple(c["observed"])
+    key = tuple((list(c["observed"]) + [""])[:3])
     c["history"] = expand(c["history"])
     made = restore_generated(c.get("generated_files"))
     try:
-        missing = [e[2] for e in c["history"] if not Path(e[2]).exists()]
+        written = {e[1] for e in c["history"] if e[0] == "write"}
+        missing = [p for e in c["history"] for p in event_paths(e) if not Path(p).exists() and p not in written]
         if missing:
             print("generated input no longer exists (temporary file):", missing[0], "- re-run ./check C16 with the recorded seed")
             return 2
-        want = worker("parse", {"parser": key[0], "path": key[1]})
-        got = run_history(c["history"], key)
-        which = "the recorded local history"
+        if c.get("reference_history"):
+            want = worker("history", {"events": c["reference_history"]})[-1][2]
+        else:
+            want = true_fresh(key)
+        idx = c.get("observed_index")
+        got = observed_in(c16_canon.exec_events(c["history"]), key, idx)
+        which = "the recorded history, run in this (fresh) process"
         if got == want and c.get("full_log"):
-            got = run_history(c["full_log"] + c["history"], key)
+            full = expand(c["full_log"]) + c["history"]
+            got = observed_in(c16_canon.exec_events(full), key, None if idx is None else idx + len(full) - len(c["history"]))
             which = "the whole recorded in-process log"
     finally:
         for p in made:
